@@ -316,6 +316,7 @@ type Result struct {
 	Panic      string         `json:"panic,omitempty"` // panic inside the handler goroutine (net/http would swallow it: no response)
 	PanicSite  string         `json:"panic_site,omitempty"`
 	Requests   int64          `json:"svc_requests"` // calls into insert services caused by the input
+	Inserts    int            `json:"insert_blocks"`
 	Issues     []blockIssue   `json:"block_issues,omitempty"`
 	Leaked     []string       `json:"leaked,omitempty"` // goroutines of the request still alive after the grace ("site [state]")
 	FollowUp   int            `json:"followup_status,omitempty"`
@@ -453,11 +454,15 @@ func (w *workerEnv) run(in *Input, forceFollow bool) Result {
 	}
 	r0 := atomic.LoadInt64(&svcRequests)
 	w.ing.fake.takeIssues()
+	w.ing.fake.takeDoLog()
 	so := w.serve(in.ID, in.Method, in.Path, in.Headers, in.Body, base)
 	res.Status, res.Panic, res.PanicSite = so.status, so.panicked, so.panicSite
 	res.Leaked, w.base = settle(base)
 	res.Requests = atomic.LoadInt64(&svcRequests) - r0
 	res.Issues = w.ing.fake.takeIssues()
+	for _, n := range w.ing.fake.takeDoLog() {
+		res.Inserts += n // INSERT blocks that reached the fake ClickHouse while the request was served
+	}
 	w.n++
 	// follow-up push by "another client": whenever the input reached an insert service (it may share a batch),
 	// was acknowledged or failed server-side, and periodically anyway
@@ -545,6 +550,9 @@ func (w *workerEnv) runShared(in *Input) Result {
 	res.Requests = atomic.LoadInt64(&svcRequests) - r0
 	res.Issues = w.ing.fake.takeIssues()
 	res.Blocks = w.ing.fake.takeDoLog()
+	for _, n := range res.Blocks {
+		res.Inserts += n
+	}
 	res.Shared = len(res.Blocks) > 0
 	for _, n := range res.Blocks {
 		if n != 1 {
